@@ -341,7 +341,19 @@ func newDriver(c *core.Case, cs *Case) *driver {
 	for range cs.all() {
 		d.recs = append(d.recs, &elemRec{})
 	}
-	c.Guard("mux.New", func() { d.mux = mux.New(cs.StanzaNS, d.options()...) })
+	c.Guard("mux.New", func() {
+		if cs.StanzaNS == "" && len(cs.Els)%2 == 1 {
+			// a multiplexer for any stanza namespace can also be had without New:
+			// the zero value with the options applied to it (what New does)
+			d.mux = &mux.ServeMux{}
+			for _, o := range d.options() {
+				o(d.mux)
+			}
+			c.Count("multiplexers_built_from_the_zero_value", 1)
+			return
+		}
+		d.mux = mux.New(cs.StanzaNS, d.options()...)
+	})
 	return d
 }
 
